@@ -507,3 +507,45 @@ func relationOrder(text, typeName string, want int) []string {
 	}
 	return nil
 }
+
+// ---- token traces: what the lexer produced for the comment-stripped input (verif hook after ParseDSL) ----
+
+type tokRec struct {
+	Type int    `json:"t"`
+	Text string `json:"x"`
+	Line int    `json:"l"`
+	Col  int    `json:"c"`
+	Ch   int    `json:"ch"`
+}
+
+func init() {
+	commands["dsl-tokens"] = dslTokens
+}
+
+func dslTokens(args []string) error {
+	fs := flag.NewFlagSet("dsl-tokens", flag.ExitOnError)
+	in := fs.String("in", "", "input ndjson {id, text}")
+	out := fs.String("out", "", "output ndjson {id, tokens}")
+	fs.Parse(args)
+	w, err := newNDWriter(*out)
+	if err != nil {
+		return err
+	}
+	defer w.close()
+	return readNDJSON(*in, func(line []byte) error {
+		var inp dslParseIn
+		if err := json.Unmarshal(line, &inp); err != nil {
+			return err
+		}
+		toks := []tokRec{}
+		transformer.VerifTokens = func(t int, x string, l, c, ch int) {
+			toks = append(toks, tokRec{t, x, l, c, ch})
+		}
+		func() {
+			defer func() { recover() }()
+			transformer.TransformModularDSLToProto(inp.Text)
+		}()
+		transformer.VerifTokens = nil
+		return w.write(map[string]any{"id": inp.ID, "tokens": toks})
+	})
+}
